@@ -38,6 +38,10 @@ def plan(tier, seed):
                     tasks.append({"kind": "mix", "dt": dt, "q": q, "rows": rows, "cyclic": False, "lo": lo, "hi": min(n, lo + CH)})
         tasks.append({"kind": "modules", "dt": dt})
         tasks.append({"kind": "calib", "dt": dt})
+        # size ladder: more than 2^20 elements, every degenerate class present many times (block-wise / in-place fast paths)
+        if dt == "float32" or tier == "thorough":
+            for q in ("qint8", "qfloat8_e4m3fn", "qfloat8_e5m2", "qint4", "qint2"):
+                tasks.append({"kind": "mix", "dt": dt, "q": q, "rows": 1031, "g": 1024, "gs": 128, "cyclic": True, "lo": 0, "hi": 2, "shifts": 2})
     return tasks
 
 
@@ -48,16 +52,16 @@ def _mix_task(task, out):
     dt = num.DTYPES[dtname]
     affine = qname in ("qint2", "qint4")
     bits = {"qint2": 2, "qint4": 4}.get(qname, 8)
-    g = 4
+    g = task.get("g", 4)
     if task["cyclic"]:
-        asgs = [tuple((k + s) % len(MIX) for k in range(rows)) for s in range(len(MIX))]
+        asgs = [tuple((k + s) % len(MIX) for k in range(rows)) for s in range(task.get("shifts", len(MIX)))]
     else:
         asgs = list(itertools.product(range(len(MIX)), repeat=rows))[task["lo"]:task["hi"]]
     only = task.get("only")
     for asg in asgs:
         names = [MIX[c] for c in asg]
         for axis in (0, -1):
-            for gs in ((None, 2) if affine else (None,)):
+            for gs in ((None, task.get("gs", 2)) if affine else (None,)):
                 if only and only != [list(asg), axis, gs]:
                     continue
                 if rows == 1 and not affine:
@@ -85,8 +89,13 @@ def _mix_task(task, out):
                     out["violations"].append(violation(PID, case, dict(fields, sub="raised"), f"raised: quantize_weight of a finite tensor raised {type(e).__name__}: {e} (classes {names})"))
                     continue
                 if not bool(torch.isfinite(dq).all()):
-                    bad = (~torch.isfinite(dq)).sum().item()
-                    out["violations"].append(violation(PID, case, dict(fields, sub="nonfinite"), f"nonfinite: {bad} NaN/Inf value(s) after quantize_weight({qname}) of a finite {dtname} tensor with row classes {names} axis {axis} group_size {gs}"))
+                    nf = ~torch.isfinite(dq)
+                    bad = nf.sum().item()
+                    # which rows (indices of the quantization axis) hold the non-finite values: the known defect F-C16-1 only
+                    # concerns rows that reach the dtype maximum, NaN/Inf in any other row is something else
+                    badrows = (nf.any(dim=1) if axis == 0 else nf.any(dim=0)).nonzero().flatten().tolist()
+                    fields = dict(fields, near_max=all(names[r % len(names)].startswith("near_max") for r in badrows))
+                    out["violations"].append(violation(PID, case, dict(fields, sub="nonfinite"), f"nonfinite: {bad} NaN/Inf value(s) after quantize_weight({qname}) of a finite {dtname} tensor with row classes {names[:12]}{"..." if len(names) > 12 else ""} axis {axis} group_size {gs}"))
                     continue
                 if affine:
                     for sub, n_, msg, extra in wq.affine_judge(x, q, bits, axis, gs, dtname, idempotence=False):
